@@ -1,7 +1,7 @@
 #!/bin/sh
 # sweep.sh <tier> <seeds...> : run every claimed check for the given seeds; print one line per run
 tier=$1; shift
-cd "$(dirname "$0")/.."
+cd "$(dirname "$0")/.."; mkdir -p .work
 for s in "$@"; do
   for p in $(cat tools/manifest/ENABLED); do
     t0=$(date +%s)
